@@ -504,6 +504,8 @@ type sigCase struct {
 	Mg      string `json:"mg"`
 	IdKey   string `json:"idkey"`
 	IdClaim string `json:"idclaim"`
+	Way     string `json:"way"` // how the long-lived verifying client object comes to hold vk (SigSchemes.tla Way)
+	Pk      string `json:"pk"`  // the key that object held before
 }
 
 func (d *drv) sig(c sigCase) {
@@ -577,8 +579,58 @@ func (d *drv) sig(c sigCase) {
 	if (encryption.VerifyPublicKeyClientID(keys[c.IdKey].GetPublicKey(), claimed) == nil) != idOK {
 		idIsHash = false
 	}
+	// the verifier as a long-lived object: a Client that already holds (and has verified with) the key pk, then
+	// becomes the vk client in the enumerated way and verifies the same signature again
+	prevOK, objOK, objBound := d.clientObject(c, keys, sig, hashes[c.Vh])
 	d.rc.Emit(rec.M{"ev": "Sig", "scheme": c.Scheme, "sk": c.Sk, "sh": c.Sh, "vk": c.Vk, "vh": c.Vh, "mg": c.Mg,
 		"idkey": c.IdKey, "idclaim": c.IdClaim, "verified": ok, "id_ok": idOK, "id_is_hash": idIsHash,
-		"genuine_ok": warm && again, "related_ok": related},
-		fmt.Sprintf("sig/%s/%v/%v/%v/%s", c.Scheme, c.Sk == c.Vk, c.Sh == c.Vh, ok, c.Mg), ok)
+		"genuine_ok": warm && again, "related_ok": related,
+		"way": c.Way, "pk": c.Pk, "obj_prev_verified": prevOK, "obj_verified": objOK, "obj_bound": objBound},
+		fmt.Sprintf("sig/%s/%v/%v/%v/%s/%s/%v", c.Scheme, c.Sk == c.Vk, c.Sh == c.Vh, ok, c.Mg, c.Way, objOK), ok)
+}
+
+// clientObject: one client.Client object with a history. (1) it holds key pk and verifies sig over h with it;
+// (2) it becomes the vk client: "set" SetPublicKey, "scheme" SetSignatureScheme, "copy" Copy from the vk client,
+// "decode" the serialized record of the vk client decoded into the SAME object + ComputeProperties (what the
+// datastore does when an entity is read into an existing object), "assign" direct assignment of the exported
+// field - the last two followed by the repository's refresh idiom c.SetPublicKey(c.PublicKey) (node.Pool.AddNode);
+// (3) it verifies sig over h again. Returns the two verdicts and whether the object ended up bound to vk
+// (public key field, key bytes, id = hash of the key).
+func (d *drv) clientObject(c sigCase, keys map[string]encryption.SignatureScheme, sig, h string) (prevOK, objOK, bound bool) {
+	verify := func(cl *client.Client) bool {
+		ok, err := cl.Verify(sig, h)
+		return err == nil && ok
+	}
+	vpub := keys[c.Vk].GetPublicKey()
+	cl := client.NewClient(client.SignatureScheme(c.Scheme))
+	must(cl.SetPublicKey(keys[c.Pk].GetPublicKey()))
+	prevOK = verify(cl)
+	switch c.Way {
+	case "set":
+		must(cl.SetPublicKey(vpub))
+	case "scheme":
+		ss := encryption.GetSignatureScheme(c.Scheme)
+		must(ss.SetPublicKey(vpub))
+		must(cl.SetSignatureScheme(ss))
+	case "copy":
+		src := client.NewClient(client.SignatureScheme(c.Scheme))
+		must(src.SetPublicKey(vpub))
+		cl.Copy(src)
+	case "decode":
+		vid, err := client.GetIDFromPublicKey(vpub)
+		must(err)
+		record, err := json.Marshal(map[string]interface{}{"id": vid, "public_key": vpub})
+		must(err)
+		must(json.Unmarshal(record, cl))
+		must(cl.ComputeProperties())
+		must(cl.SetPublicKey(cl.PublicKey))
+	case "assign":
+		cl.PublicKey = vpub
+		must(cl.SetPublicKey(cl.PublicKey))
+	default:
+		rec.Fatal("binding: unknown way %q", c.Way)
+	}
+	objOK = verify(cl)
+	bound = cl.PublicKey == vpub && cl.ID == encryption.Hash(cl.PublicKeyBytes) && hex.EncodeToString(cl.PublicKeyBytes) == vpub
+	return
 }
